@@ -27,6 +27,7 @@ import coreprop
 import impl
 import lib
 import dispatchtie
+import routasttie
 import iotie
 import universe
 
@@ -34,7 +35,8 @@ COQ_TARGETS = ["theories/Props/C05.vo", "theories/Props/C05Bridge.vo", "theories
                "theories/Model/CoreTables.vo", "theories/Model/GraphBridgeEq.vo"]
 COQ_TARGETS = COQ_TARGETS + [t for t in dispatchtie.COQ_TARGETS if t not in COQ_TARGETS]
 COQ_TARGETS = COQ_TARGETS + [t for t in iotie.COQ_TARGETS if t not in COQ_TARGETS]
-THEOREMS = ["C05_build_routes", "C05_unmarshal", "C05_marshal",
+COQ_TARGETS = COQ_TARGETS + [t for t in routasttie.COQ_TARGETS if t not in COQ_TARGETS]
+THEOREMS = ["C05_build_routes", "C05_unmarshal", "C05_marshal", "C05_unmarshal_complete", "C05_marshal_complete", "C05_unmarshal_equiv", "C05_marshal_equiv", "C05_mechanism_fuel_monotone", "C05_complete_refuted_without_strict_roots",
             "C05_unmarshal_history", "C05_marshal_history", "C05_history_position_independent"]
 BRIDGE_THEOREMS = ["C05_contract_from_graph", "C05_contract_from_graph_env", "C05_root_from_graph",
                    "C05_orders_contract_from_graph", "C05_unmarshal_from_graph", "C05_marshal_from_graph",
@@ -139,6 +141,7 @@ def correspond(run: lib.Run):
     # the head-constructor dispatch Build.construct assumes IS the first-match dispatch over the live _HANDLERS tables (dyn/Dispatch)
     lib.run_tie(run, dispatchtie, streams=False, core=True, groups=groups[:len(groups) - len(eq_groups)][:run.budget(40, 80)], tag="c05")
     lib.run_tie(run, iotie, streams=False)
+    lib.run_tie(run, routasttie)      # the __call__ bodies of the composite routine classes, parsed and translated on this run, ARE Core's steps (Props/RoutineAst.v)
     if groups and groups[0].cases:
         run.samples.append(groups[0].cases[0][4])
 
